@@ -451,7 +451,7 @@ class AsyncBaseClientOpenTelemetry:
     ) -> Optional[Dict[str, Any]]:
         try:
             message_dict = json.loads(message)
-        except json.JSONDecodeError as exc:
+        except (json.JSONDecodeError, UnicodeDecodeError) as exc:
             raise GraphQLClientInvalidMessageFormat(message=message) from exc
 
         if not isinstance(message_dict, dict):
@@ -717,7 +717,7 @@ class AsyncBaseClientOpenTelemetry:
 
             try:
                 message_dict = json.loads(message)
-            except json.JSONDecodeError as exc:
+            except (json.JSONDecodeError, UnicodeDecodeError) as exc:
                 raise GraphQLClientInvalidMessageFormat(message=message) from exc
 
             if not isinstance(message_dict, dict):
